@@ -582,6 +582,9 @@ func nilRecv(c *icall, p Ptr) {
 }
 
 func (c *icall) curPos() token.Pos {
+	if c.posOverride.IsValid() {
+		return c.posOverride
+	}
 	if c.fr != nil {
 		return c.e.instrPos(c.fr)
 	}
